@@ -217,6 +217,30 @@ def extract(repo, T):
         T.fail("CouponHashSet::checkGrowOrPromote: maximum size shape not recognised")
     else:
         R["hll_SET_MAX_LG_BELOW_LGK"] = int(m.group(1))
+    # source shapes of the two places of hll_union that were repaired (defects found by ./check C04): an unknown shape is a failure
+    Usrc = S("hll/include/HllUnion-internal.hpp")
+    m = re.search(r"tgtHllArr->mergeHll\(\*src\);(.*?)tgtHllArr->putHipAccum\(src->getHipAccum\(\)\);", Usrc, flags=re.S)
+    if not m:
+        T.fail("hll_union::copy_or_downsample: down-sampling tail not recognised")
+    else:
+        mid = "".join(m.group(1).split())
+        if mid == "":
+            R["hll_unionDownsampleRebuilds"] = False
+        elif mid == "tgtHllArr->check_rebuild_kxq_cur_min();":
+            R["hll_unionDownsampleRebuilds"] = True
+        else:
+            T.fail("hll_union::copy_or_downsample has an unknown shape after mergeHll: %r" % m.group(1).strip()[:120])
+    m = re.search(r"void\s+hll_union_alloc<A>::reset\(\)\s*\{(.*?)\n\}", Usrc, flags=re.S)
+    if not m:
+        T.fail("hll_union::reset() body not found")
+    else:
+        body = "".join(m.group(1).split())
+        if body == "gadget_.reset();":
+            R["hll_unionResetToMaxK"] = False
+        elif body == "gadget_=hll_sketch_alloc<A>(lg_max_k_,target_hll_type::HLL_8,false,gadget_.sketch_impl->getAllocator());":
+            R["hll_unionResetToMaxK"] = True
+        else:
+            T.fail("hll_union::reset() has an unknown shape: %r" % m.group(1).strip()[:160])
     cs = []
     cenv = {}
     for name, rel, ident, kind in NAT_RULES:
@@ -246,6 +270,9 @@ def lean_source(consts_src, R):
     for k in sorted(R):
         v = R[k]
         if k == "hll_consts":
+            continue
+        if isinstance(v, bool):
+            out.append("def %s : Bool := %s" % (k, "true" if v else "false"))
             continue
         if isinstance(v, int) and (k.startswith("hll_LIST") or k.startswith("hll_SET") or k == "hll_linCountFactor"):
             out.append("def %s : Nat := %d" % (k, v))
